@@ -109,7 +109,7 @@ pub fn run_c01(args: &Args, tier: &str, seed: u64) -> Report {
     for r in reports {
         rep.merge(r);
     }
-    rep.rule = "G1: value-model messages (deterministic prefix of hand-enumerated shapes, then seeded random; any header, first group operation, 0..k further groups of any kind incl. repeated/empty, unique UTF-8 names, all 22 kinds, sets >=2 homogeneous/mixed, collections nested up to 6 and chains up to 200, boundary lengths, payloads). Each case: to_bytes()+payload -> IppParser; into_read() -> IppParser; every 4th also AsyncIppParser. Oracle: structural equality with the generator's own mirror tree (one-element set == element), payload byte equality. evaluations = parser runs compared. Non-trivial = has a mixed set, a multi-valued collection member, nesting >= 2, a boundary length, >= 3 groups or a payload; distinct = by hash of the encoded bytes.".into();
+    rep.rule = "G1: value-model messages (deterministic prefix of hand-enumerated shapes, then seeded random; any header, first group operation, 0..k further groups of any kind incl. repeated/empty, unique UTF-8 names, all 22 kinds, sets >=2 homogeneous/mixed, collections nested up to 6 and chains up to 200, boundary lengths, payloads). Each case: to_bytes()+payload -> IppParser; into_read() -> IppParser; every 4th also AsyncIppParser; every 3rd also re-serialised after the header (header_mut) resp. an attribute (attributes_mut().add) was changed following a first to_bytes() (serialisation must not depend on the object's history). Oracle: structural equality with the generator's own mirror tree (one-element set == element), payload byte equality. evaluations = parser runs compared. Non-trivial = has a mixed set, a multi-valued collection member, nesting >= 2, a boundary length, >= 3 groups or a payload; distinct = by hash of the encoded bytes.".into();
     if only.is_none() {
         let kinds = rep.sets.get("kinds").map(|s| s.len()).unwrap_or(0);
         rep.require(kinds == 22, &format!("all 22 value kinds exercised (saw {kinds})"));
@@ -200,6 +200,68 @@ pub(crate) fn c01_case(rep: &mut Report, m: &Model, seed: u64, idx: u64) {
     if idx % 4 == 0 {
         let (o, _, _) = async_parse(&data, Plan::full());
         check(rep, "async", o);
+    }
+    // path C/D: serialisation must not depend on the object's history: serialise once, then change the header
+    // (header_mut) or the attributes (attributes_mut) to the target content, and serialise again
+    if idx % 3 == 0 {
+        let o = catch(|| {
+            let mut first = m.clone();
+            first.version ^= 0x0301;
+            first.code = first.code.wrapping_add(7);
+            first.id = first.id.wrapping_add(1000);
+            let mut r = mirror::to_ipp(&first);
+            let stale = r.to_bytes();
+            std::hint::black_box(stale.len());
+            let h = r.header_mut();
+            h.version = IppVersion(m.version);
+            h.operation_or_status = m.code;
+            h.request_id = m.id;
+            let mut b = r.to_bytes().to_vec();
+            b.extend_from_slice(&m.data);
+            b
+        });
+        match o {
+            Ok(b) => {
+                let (o, _) = sync_parse(&Arc::new(b), Plan::full());
+                check(rep, "reserialise-after-header_mut", o);
+            }
+            Err(p) => rep.violation(format!("C01:encode-panic:{}", panic_site(&p)), format!("case {idx}: {p}"), replay.clone()),
+        }
+        if let Some((tag, (name, val))) = m.groups.iter().rev().find_map(|g| g.attrs.iter().next().map(|a| (g.tag, a))) {
+            let o = catch(|| {
+                // same message but with another value under that name in the first group of that kind; add() then replaces it
+                let mut first = m.clone();
+                let gi = first.groups.iter().position(|g| g.tag == tag).unwrap();
+                let target = first.groups[gi].attrs.get(name).cloned();
+                first.groups[gi].attrs.insert(name.clone(), ippref::MVal::Integer(424242));
+                let mut r = mirror::to_ipp(&first);
+                let stale = r.to_bytes();
+                std::hint::black_box(stale.len());
+                let newval = target.unwrap_or_else(|| val.clone());
+                r.attributes_mut().add(mirror::delim(tag), IppAttribute::new(name, mirror::to_ipp_value(&newval)));
+                let mut expect = first.clone();
+                expect.groups[gi].attrs.insert(name.clone(), newval);
+                let mut b = r.to_bytes().to_vec();
+                b.extend_from_slice(&m.data);
+                (b, expect.normalize())
+            });
+            match o {
+                Ok((b, expect)) => {
+                    rep.eval();
+                    rep.count("runs_reserialise-after-add", 1);
+                    let (o, _) = sync_parse(&Arc::new(b), Plan::full());
+                    match o {
+                        Outcome::Ok(got) => {
+                            if let Some(d) = mirror::diff(&expect, &got.normalize()) {
+                                rep.violation("C01:mismatch:after-add", format!("case {idx}: serialise, add({tag},{name:?}), serialise again: {d}"), replay.clone());
+                            }
+                        }
+                        other => rep.violation(format!("C01:parse-{}", other.class()), format!("case {idx} path reserialise-after-add: {}", other.short()), replay.clone()),
+                    }
+                }
+                Err(p) => rep.violation(format!("C01:encode-panic:{}", panic_site(&p)), format!("case {idx}: {p}"), replay.clone()),
+            }
+        }
     }
 }
 
